@@ -304,14 +304,21 @@ Definition served_model (ttl : N) (it : item jM) (t : Z) : option N :=
 
 Definition opt_eqb (a b : option N) : bool := option_eqb N.eqb a b.
 
+(** the answer's TTL lies between the model's at the end and at the start of
+    the observation window (equal to one of them when either is a miss) *)
+Definition in_window (obs a b : option N) : bool :=
+  match obs, a, b with
+  | Some v, Some x, Some y => (y <=? v) && (v <=? x)
+  | _, _, _ => opt_eqb obs a || opt_eqb obs b
+  end.
+
 Definition agree_serve ttl st me ce (nd nl : Z) (w1 w2 : Z * Z) served1 served2 (same : bool) : bool :=
   let it := mkItem (key_of 0) (1, 0) st me ce in
   let c2 := if survives nd nl it then Some (reload_item it) else None in
   same
-  && (opt_eqb served1 (served_model ttl it (fst w1)) || opt_eqb served1 (served_model ttl it (snd w1)))
+  && in_window served1 (served_model ttl it (fst w1)) (served_model ttl it (snd w1))
   && match c2 with
-     | Some it' =>
-       opt_eqb served2 (served_model ttl it' (fst w2)) || opt_eqb served2 (served_model ttl it' (snd w2))
+     | Some it' => in_window served2 (served_model ttl it' (fst w2)) (served_model ttl it' (snd w2))
      | None => opt_eqb served2 None
      end.
 
